@@ -489,7 +489,69 @@ def rule_columns(ctx):
            'spatial positions read the wrong attribute', nontrivial=False)
 
 
+# ---------------------------------------------------------------- R7 -----
+def rule_is_set(ctx):
+    """"is this optional numeric set?" must be decided by `is (not) None`, never
+    by truthiness: 0 is a legitimate bound (max_seat_capacity=0 selects all-cargo
+    flights), and a dropped bound silently selects everything."""
+    prog = ctx.prog
+    classes = [prog.cls(F, 'Filter')] + [c for c in prog.subclasses_of('QueryBase')]
+    n = 0
+    for cls in classes:
+        numeric = set()
+        for f, ann in cls.all_fields().items():
+            a = norm(ann)
+            if 'None' in a and any(k in a for k in ('float', 'int')) and 'list' not in a and 'str' not in a:
+                numeric.add(f)
+        if not numeric:
+            continue
+        fns = [f for f in cls.module.functions.values() if f.cls is cls]
+        for fi in fns:
+            # parameters of (nested) helpers that receive such a field
+            tainted = {}
+            for c in calls_in(fi.node):
+                callee = resolve_call(prog, fi, c)
+                if callee is None:
+                    continue
+                off = 1 if callee.params[:1] in (['self'], ['cls']) else 0
+                for i, a in enumerate(c.args):
+                    if isinstance(a, ast.Attribute) and norm(a.value) == 'self' and a.attr in numeric \
+                            and i + off < len(callee.params):
+                        tainted.setdefault(callee.qualname, {})[callee.params[i + off]] = a.attr
+            scopes = [(fi, {f'self.{x}': x for x in numeric})]
+            for q, prm in tainted.items():
+                callee = fi.module.functions.get(q)
+                if callee is not None:
+                    scopes.append((callee, dict(prm)))
+            for fn, subj in scopes:
+                for x in walk_no_nested(fn.node):
+                    tests = []
+                    if isinstance(x, (ast.If, ast.While, ast.IfExp)):
+                        tests.append(x.test)
+                    for t in tests:
+                        atoms = [t]
+                        if isinstance(t, ast.BoolOp):
+                            atoms = list(t.values)
+                        for a in atoms:
+                            neg = isinstance(a, ast.UnaryOp) and isinstance(a.op, ast.Not)
+                            core = a.operand if neg else a
+                            txt = norm(core)
+                            if txt in subj:
+                                n += 1
+                                ctx.ob('C14-R7', fn, f'`{norm(t)}` tests {subj[txt]} by truthiness', False,
+                                       f'the optional numeric `{subj[txt]}` counts as "not set" when it is 0: a bound of 0 '
+                                       '(e.g. max_seat_capacity=0) is silently dropped and the query selects everything',
+                                       line=t.lineno)
+                            elif isinstance(core, ast.Compare) and norm(core.left) in subj and \
+                                    isinstance(core.ops[0], (ast.Is, ast.IsNot)) and norm(core.comparators[0]) == 'None':
+                                n += 1
+                                ctx.ob('C14-R7', fn, f'`{norm(core)}`', True, 'identity test against None', line=core.lineno,
+                                       nontrivial=False)
+    ctx.floor('C14-R7', n, 6, 'is-set tests of optional numeric fields')
+
+
 def run(ctx):
+    rule_is_set(ctx)
     rule_pure(ctx)
     rule_unpack(ctx)
     rule_placeholders(ctx)
